@@ -1,4 +1,4 @@
-import DoitModel.Proofs.RunLive2
+import DoitModel.Proofs.RunAcct
 /-! # C02 — each needed task is processed exactly once; nothing else runs
 
 Property theorems only (model: `Model/Run.lean`; invariants: `Proofs/Run*.lean`).
@@ -122,12 +122,32 @@ theorem C02_all_processed_serial (inp : RunInput) (s : Sys) (hr : Reach inp s) (
     s.events.countP (Ev.isTerminalOf t) = 1 :=
   all_processed_serial hr hend hhalt hstop t ht
 
-/-- the same statement for the parallel runners; not proved yet (needs the `free_proc` / `proc_count` accounting
-    invariant I9 to show that the main loop does not leave results unprocessed).  The monitor `monC02AllProcessed`
-    evaluates it on every thread / process trace of the implementation. -/
-def C02_all_processed_parallel_full : Prop :=
-  ∀ (inp : RunInput) (s : Sys), PReach inp s → s.rpc = .halted → s.halt = .none → s.stop = false →
-    ∀ t, RunCl inp s t → s.events.countP (Ev.isTerminalOf t) = 1
+/-- C02 (completeness part) for the parallel runners (`MRunner` / `MThreadRunner`), every worker interleaving and
+    every `numProcess`: at a normal end of the main loop every member of the closure has exactly one terminal report -/
+theorem C02_all_processed_parallel (inp : RunInput) (s : Sys) (hr : PReach inp s) (hend : s.rpc = .halted)
+    (hhalt : s.halt = .none) (hstop : s.stop = false) (t : Name) (ht : RunCl inp s t) :
+    s.events.countP (Ev.isTerminalOf t) = 1 :=
+  all_processed_parallel hr hend hhalt hstop t ht
+
+/-- I9, the `free_proc` / `proc_count` accounting of `MRunner.run_tasks`: outside the start loop `proc_count` covers
+    the outstanding work (task jobs queued or held, tasks being executed, unprocessed results), the workers parked on a
+    `JobHold` and the `get_next_job` calls still owed in the current round; in the start loop every started worker has
+    exactly one job.  Hence the loop never ends (`proc_count = 0`) with work left, and no started worker is left without
+    its `None`. -/
+theorem C02_queue_accounting (inp : RunInput) (s : Sys) (hr : PReach inp s) :
+    (inStart s = true → s.nStarted + pendStart s = outst s + s.freeProc) ∧
+    (inStart s = false → s.halt = .none → s.procCount ≥ ((outst s + s.freeProc + kRem s : Nat) : Int)) :=
+  ⟨(preach_inv5 hr).accS, (preach_inv5 hr).accM⟩
+
+/-- at a normal end nothing is in flight and the dispatcher generator is exhausted -/
+theorem C02_end_quiescent (inp : RunInput) (s : Sys) (hr : PReach inp s) (hend : s.rpc = .halted)
+    (hhalt : s.halt = .none) (hstop : s.stop = false) :
+    s.susp = some .stopIter ∧ s.resQ = [] ∧ (∀ t, Job.task t ∉ s.jobQ) ∧ (∀ w t, s.workers w ≠ .running t) := by
+  obtain ⟨a, b⟩ := parallel_end_quiescent hr hend hhalt hstop
+  refine ⟨a, ?_, fun t h => b t (Or.inl h), fun w t h => b t (Or.inr (Or.inr (Or.inl ⟨w, h⟩)))⟩
+  cases hq : s.resQ with
+  | nil => rfl
+  | cons x xs => exact absurd (Or.inr (Or.inr (Or.inr (by rw [hq]; simp)))) (b x)
 
 /-! ### non-vacuity -/
 
@@ -151,5 +171,11 @@ example : ∃ s, Reach { exShared with runner := .serial, numProc := 0 } s ∧ s
     s.stop = false ∧ RunCl { exShared with runner := .serial, numProc := 0 } s 0 :=
   ⟨_, autoRun_reach (by decide) false false 600 _ Reach.init, by decide +kernel, by decide +kernel,
     by decide +kernel, RunCl.ofSel (by decide)⟩
+
+/-- ... and by a run with three worker threads -/
+example : ∃ s, PReach exShared s ∧ s.rpc = .halted ∧ s.halt = .none ∧ s.stop = false ∧ RunCl exShared s 4 :=
+  ⟨_, autoRun_preach (by decide) false true 600 _ PReach.init, by decide +kernel, by decide +kernel,
+    by decide +kernel,
+    RunCl.ofSetup (t := 1) (deps := [0, 4]) (RunCl.ofSel (by decide)) (by decide +kernel) (by decide)⟩
 
 end DoitModel.C02
